@@ -83,6 +83,58 @@ class C03(Check):
             call["id"] = rng.choice(["x", "x", "y", ""])      # providers may re-use or omit call ids
         return call
 
+    def extra_checks(self):
+        """Configurations in which the engine cannot even report success (timeout_seconds 0 / None break its efficiency
+        formula after the work is done) and a grant of EVERY capability: a tool outside the allowed set still must not
+        run, through each of the three entry points.  Monitor only (no model: the reported result is not the point)."""
+        from operon_ai.organelles.mitochondria import Mitochondria, SimpleTool
+        from operon_ai.organelles.nucleus import Nucleus
+        from operon_ai.providers import ToolCall
+        from operon_ai.core.types import Capability
+        caps = list(Capability)
+        n = 0
+        decls = [("enum", {caps[2]}), ("tag", {"prod_db"}), ("enum+tag", {caps[1], "prod_db"}), ("all+tag", set(caps) | {"x"})]
+        grants = [("none", set()), ("other", {caps[0]}), ("all-enum", set(caps)), ("five", set(caps[:5]))]
+        for timeout in (0, None, float("inf"), 5.0, 0.0, -0.0):
+            for dname, decl in decls:
+                for gname, grant in grants:
+                    if decl <= grant:
+                        continue                     # allowed: nothing to demand
+                    for entry in ("expr", "expr-forced", "call", "loop"):
+                        ran = []
+                        try:
+                            m = Mitochondria(timeout_seconds=timeout, silent=True, allowed_capabilities=set(grant), max_ros=1e9)
+                            for attr in ("required_capabilities", "capabilities"):
+                                t = MC.ToolStub("wipe" + attr[0], decl, "const", [], MC.Interner(), attr)
+                                t.execute = (lambda *a, _t=attr, **k: ran.append(_t) or 1)
+                                m.engulf_tool(t)
+                            m.engulf_tool(SimpleTool("wipes", "d", lambda *a, **k: ran.append("simple") or 1,
+                                                     required_capabilities=set(decl)))
+                            for name in ("wiper", "wipec", "wipes"):
+                                if entry == "expr":
+                                    m.metabolize(f"{name}(1)")
+                                elif entry == "expr-forced":
+                                    from operon_ai.organelles.mitochondria import MetabolicPathway
+                                    m.metabolize(f"{name}(1)", MetabolicPathway.OXIDATIVE)
+                                elif entry == "call":
+                                    m.execute_tool_call(ToolCall(id="1", name=name, arguments={}))
+                                else:
+                                    prov = FakeProvider([[{"name": name, "args": {}}, {"name": name, "args": {}, "id": "c0_0"}]])
+                                    Nucleus(provider=prov).transcribe_with_tools("p", m, max_iterations=2)
+                        except BaseException as e:  # noqa
+                            ran.append("raised:" + type(e).__name__)
+                        n += 1
+                        bad = [x for x in ran if not x.startswith("raised")]
+                        if bad:
+                            self.violations.append(Violation(
+                                "C03/disallowed-tool-ran",
+                                f"timeout_seconds={timeout!r}, allowed={gname}, tool declares {dname}: tool bodies {bad} ran through "
+                                f"entry point '{entry}' although the declaration is not within the allowed set",
+                                case={"config_probe": True, "timeout": repr(timeout), "allowed": gname, "declares": dname, "entry": entry}))
+                            self.extra_cov["configuration_probes"] = n
+                            return
+        self.extra_cov["configuration_probes"] = n
+
     def exhaustive_cases(self):
         """One LLM turn with several tool calls: every order of a disallowed and an allowed call, with every pattern of
         call ids (equal, different, empty, absent), for several allowed sets - and the same spread over two turns."""
@@ -112,7 +164,8 @@ class C03(Check):
     def gen_cases(self, rng, n):
         out = []
         for _ in range(n):
-            allowed = rng.choice([None, [], [], [0], [1, 2], [0, 1, 2, 3], rng.sample([0, 1, 2, 3], 2)])
+            allowed = rng.choice([None, [], [], [0], [1, 2], [0, 1, 2, 3], rng.sample([0, 1, 2, 3], 2),
+                                  [0, 1, 2, 3, 4, 5], [0, 1, 2, 3, 4, 5], rng.sample(range(6), 5)])   # incl. every capability granted
             ops, names = [], []
             beh = {}        # the body's behaviour is a function of the tool NAME within a case (the recorded oracle
                             # answers are keyed by name and arguments); capabilities may change on re-registration
@@ -122,7 +175,7 @@ class C03(Check):
                     nm = rng.choice(NAMES)
                     names.append(nm)
                     beh.setdefault(nm, rng.choice(["const", "const", "nargs", "raise", "none"]))
-                    ops.append({"op": "reg", "name": nm, "caps": rng.sample([0, 1, 2, 3], rng.choice([0, 0, 1, 1, 2])),
+                    ops.append({"op": "reg", "name": nm, "caps": rng.sample(range(6), rng.choice([0, 0, 1, 1, 2, 6])),
                                 # declarations may also carry free-form string tags next to enum members
                                 "tags": rng.sample(MC.STRING_TAGS, rng.choice([0, 0, 0, 1, 1, 2])),
                                 "behaviour": beh[nm],
@@ -143,7 +196,10 @@ class C03(Check):
                 else:
                     rounds = [[self._call(rng, names) for _ in range(rng.randint(0, 3))] for _ in range(rng.randint(0, 4))]
                     ops.append({"op": "loop", "max_iter": rng.choice([0, 1, 2, 3, 10]), "rounds": rounds})
-            out.append({"allowed": allowed, "ops": ops})
+            out.append({"allowed": allowed, "ops": ops,
+                        # constructor options that must not weaken the check (0 / None make every evaluation fail in
+                        # the efficiency formula AFTER the work was done: those are probed in extra_checks)
+                        "timeout": rng.choice([5.0, 5.0, 5.0, float("inf"), 0.001, -1.0, 1e9])})
         return out
 
     def corpus_cases(self):
@@ -162,7 +218,7 @@ class C03(Check):
     def run_impl(self, case):
         from operon_ai.organelles.nucleus import Nucleus
         from operon_ai.providers import ToolCall
-        rec = MC.Recorder([], case["allowed"], silent=True, max_ros=1e9)
+        rec = MC.Recorder([], case["allowed"], silent=True, max_ros=1e9, timeout=case.get("timeout", 5.0))
         m, I = rec.m, rec.I
         obs, steps = [], []
         results = []
